@@ -27,7 +27,7 @@ func C03(r *core.Run) {
 	r.Explanation = "Membership guards and field provenance of object listings in all four backends, on all paths (not order, not the string semantics of Prefix.Match): " +
 		"(R03.1) every ObjectList.Add/AddPrefix is reachable only after a positive prefix test of the very key being added (Prefix.Match, or the HasPrefix test on the directory entry in the fs file-prefix walkers), Add only on the not-grouped arm and AddPrefix only on the grouped / directory arm; " +
 		"(R03.2) delete-marked keys are never listed and the listed Key is the iterated key; (R03.3) listed ETag and Size come from the same stored record as the Key; " +
-		"(R03.4) the two fs backends' listing helpers agree argument by argument; (R03.5) AddPrefix de-duplicates; (R03.6) a listing loop passes over a key only for the admissible reasons (no match, delete marker, prefix already reported); (R03.7) Prefix.Match splits and re-joins with the request's delimiter; (R10.5) distinct keys have distinct metadata records on the fs backends (the listed ETag is the key's own); (R02.7) deleting a nested key leaves no empty directory behind to be listed as a phantom prefix. (R03.8) a listing collected by walking the directory tree is sorted by key before it is returned. (R03.9) bolt cursor moves in the listing are examined by the loop and pruneEmptyDirs gets the object's path; (R04.4) only the entry equal to the marker is skipped after seeking. (R03.10) a search result (strings/bytes Index*) separates 'found' from 'not found' at -1: a test `> 0` drops a match at offset 0 (an empty path segment, a doubled delimiter)."
+		"(R03.4) the two fs backends' listing helpers agree argument by argument; (R03.5) AddPrefix de-duplicates; (R03.6) a listing loop passes over a key only for the admissible reasons (no match, delete marker, prefix already reported); (R03.7) Prefix.Match splits and re-joins with the request's delimiter; (R10.5) distinct keys have distinct metadata records on the fs backends (the listed ETag is the key's own); (R02.7) deleting a nested key leaves no empty directory behind to be listed as a phantom prefix. (R03.8) a listing collected by walking the directory tree is sorted by key before it is returned. (R03.9) bolt cursor moves in the listing are examined by the loop and pruneEmptyDirs gets the object's path; (R04.4) only the entry equal to the marker is skipped after seeking. (R03.10) a search result (strings/bytes Index*) separates 'found' from 'not found' at -1: a test `> 0` drops a match at offset 0 (an empty path segment, a doubled delimiter). (R03.11) the delimiter and the prefix of a listing request are derived from their own query parameters only."
 	r.NotDecided = "ascending byte order as a value statement (only: ordered store or explicit sort by key, R03.8), the semantics of Prefix.Match, delimiters other than '/', that every live key is visited (completeness of the iteration)"
 	rule031(r)
 	rule033(r)
@@ -38,6 +38,7 @@ func C03(r *core.Run) {
 	rule038(r)
 	rule039(r)
 	rule0310(r)
+	rule0311(r)
 	rule044(r)
 	rule105(r)
 	rule027(r)
@@ -1006,4 +1007,104 @@ func rule0310(r *core.Run) {
 		})
 	}
 	r.Held("R03.10", key("repo", "search calls enumerated"), "", sprintf("%d Index/LastIndex calls, %d constant comparisons", n, nCmp))
+}
+
+// rule0311 — the listing request's delimiter and prefix do not depend on each other.
+func rule0311(r *core.Run) {
+	r.Rule("R03.11", "in prefixFromQuery every value stored into Prefix.HasDelimiter / Prefix.Delimiter derives from the 'delimiter' query parameter only and every value stored into Prefix.HasPrefix / Prefix.Prefix from 'prefix' only: a delimiter given without a prefix still groups (and a prefix without a delimiter does not)")
+	fn := mustFunc(r, "gofakes3.prefixFromQuery")
+	if fn == nil {
+		return
+	}
+	name := fname(r, fn)
+	n := 0
+	for fld, want := range map[string]string{"gofakes3.Prefix.HasDelimiter": "delimiter", "gofakes3.Prefix.Delimiter": "delimiter", "gofakes3.Prefix.HasPrefix": "prefix", "gofakes3.Prefix.Prefix": "prefix"} {
+		other := "prefix"
+		otherFld := []string{"field:gofakes3.Prefix.Prefix", "field:gofakes3.Prefix.HasPrefix"}
+		if want == "prefix" {
+			other = "delimiter"
+			otherFld = []string{"field:gofakes3.Prefix.Delimiter", "field:gofakes3.Prefix.HasDelimiter"}
+		}
+		for _, st := range r.P.FieldStores(fld) {
+			if st.Parent() != fn {
+				continue
+			}
+			n++
+			srcs := prefixSources(r, st.Val)
+			bad := srcs["const:"+other] || srcs[otherFld[0]] || srcs[otherFld[1]]
+			r.Check(!bad, "R03.11", key(name, strings.TrimPrefix(fld, "gofakes3.Prefix.")+" from '"+want+"' only", sprintf("#%d", n)), pos(r, st), "derives from the "+want+" parameter",
+				"the value stored into "+fld+" depends on the '"+other+"' parameter: a listing with a delimiter but no prefix (or the reverse) is answered as if the other had not been given")
+		}
+	}
+	if n < 4 {
+		r.Unresolved("R03.11: %d stores into the Prefix fields found in prefixFromQuery (expected at least 4)", n)
+	}
+}
+
+// prefixSources: field-sensitive def-use closure of a value inside one
+// function: which fields of local structs and which constant strings it
+// derives from (loads of struct fields are leaves; the conditions selecting the
+// edges of a merged boolean are followed).
+func prefixSources(r *core.Run, v ssa.Value) map[string]bool {
+	out := map[string]bool{}
+	seen := map[ssa.Value]bool{}
+	var walk func(v ssa.Value, d int)
+	walk = func(v ssa.Value, d int) {
+		if v == nil || seen[v] || d > 12 {
+			return
+		}
+		seen[v] = true
+		switch x := v.(type) {
+		case *ssa.Const:
+			if s, ok := core.ConstString(x); ok {
+				out["const:"+s] = true
+			}
+		case *ssa.UnOp:
+			if x.Op == token.MUL {
+				if fa, ok := x.X.(*ssa.FieldAddr); ok {
+					out["field:"+r.P.FieldName(fa)] = true
+					// the value last stored into that field of a local struct
+					if al, ok := fa.X.(*ssa.Alloc); ok {
+						for _, ref := range *al.Referrers() {
+							if f2, ok := ref.(*ssa.FieldAddr); ok && f2.Field == fa.Field {
+								for _, u := range *f2.Referrers() {
+									if st, ok := u.(*ssa.Store); ok && st.Addr == ssa.Value(f2) && st.Val != v {
+										walk(st.Val, d+1)
+									}
+								}
+							}
+						}
+					}
+					return
+				}
+			}
+			walk(x.X, d+1)
+		case *ssa.BinOp:
+			walk(x.X, d+1)
+			walk(x.Y, d+1)
+		case *ssa.Phi:
+			for i, e := range x.Edges {
+				walk(e, d+1)
+				if i < len(x.Block().Preds) {
+					for _, g := range core.GuardsOfEdge(x.Block().Preds[i], x.Block()) {
+						walk(g.If.Cond, d+1)
+					}
+				}
+			}
+		case *ssa.Extract:
+			walk(x.Tuple, d+1)
+		case *ssa.Lookup:
+			walk(x.Index, d+1)
+		case *ssa.Call:
+			for _, a := range x.Call.Args {
+				walk(a, d+1)
+			}
+		case *ssa.Convert:
+			walk(x.X, d+1)
+		case *ssa.ChangeType:
+			walk(x.X, d+1)
+		}
+	}
+	walk(v, 0)
+	return out
 }
